@@ -179,10 +179,10 @@ def structures(max_len):
                 yield seq, ties
 
 
-def small_spec(seq, ties, deco, pid="P1"):
+def small_spec(seq, ties, deco, pid="P1", d=2, offset=0):
     """ir part spec for a structure. Returns (spec, roles) with roles[id] = role string of each pitched
-    note: 'plain', 'chord', 'tie-head', 'tie-later', 'grace'."""
-    d = 2
+    note: 'plain', 'chord', 'tie-head', 'tie-later', 'grace'. `d` = divisions per quarter (one slot lasts a
+    quarter), `offset` = time of the first slot in divisions (every element is shifted by it)."""
     objs = []
     roles = {}
     pit = {"a": P0, "b": P1}
@@ -237,7 +237,54 @@ def small_spec(seq, ties, deco, pid="P1"):
             objs.append({"k": "tuplet", "a": mains[0], "b": mains[-1], "actual": 3, "normal": 2})
         if mains:
             objs.append({"k": "fermata", "s": by_id[mains[0]]["s"], "ref": mains[0]})
+    if offset:
+        for o in objs:
+            for key in ("s", "e"):
+                if o.get(key) is not None:
+                    o[key] += offset
     return {"id": pid, "name": "small", "divs": [[0, d]], "objs": objs}, roles
+
+
+# ---------------------------------------------------------------------------------------------
+# long instances of the small parts (magnitude dimension: number of time points, time scale, time offset)
+
+# slots per part. Every slot is one time point; the longest value stays below the length at which the deep copy
+# made by transpose() needs more than its recursion limit of 10000 frames (12-16 frames per time point for these
+# patterns, i.e. 620-830 slots; see ASSUMPTIONS of checks/c16.py)
+LONG_N = (30, 120, 500)
+# lengths a correct transpose() must handle as well, not enumerated while the deep copy is recursion bound
+LONG_N_PENDING = (1100, 2600)
+# (divisions per quarter, time of the first slot): the plain scale, a fine grid, a start beyond 2**31 divisions
+LONG_SCALES = ((2, 0), (2 * 10080, 0), (2, 2 ** 31 + 1))
+
+
+def _common(x, y):
+    return "".join(c for c in _slot_pitches(x) if c in _slot_pitches(y))
+
+
+def long_bases():
+    """The regular patterns: every sequence of one slot or of two different slots (a sequence of two equal slots
+    is the one-slot pattern), repeated over and over; `tied` = every pitch common to two adjacent slots is tied
+    across (only where the repetition has such a pitch), so ('a',) tied is one tie chain through the whole
+    part. -> [(base tuple, tied 0/1)]"""
+    import itertools
+
+    out = []
+    for n in (1, 2):
+        for base in itertools.product(SLOTS, repeat=n):
+            if n == 2 and base[0] == base[1]:
+                continue
+            out.append((base, 0))
+            if any(_common(base[i], base[(i + 1) % n]) for i in range(n)):
+                out.append((base, 1))
+    return out
+
+
+def long_structure(base, tied, n):
+    """(slots, ties) of `base` repeated to n slots"""
+    seq = tuple(base[i % len(base)] for i in range(n))
+    ties = tuple(_common(seq[i], seq[i + 1]) if tied else "" for i in range(n - 1))
+    return seq, ties
 
 
 def other_spec(pid="P2"):
